@@ -1,0 +1,51 @@
+//! Verification hooks. Only compiled with `--cfg metrics_verif`; never part of a normal build.
+//!
+//! `point(id)` marks the program point immediately before a shared-memory operation. A test harness
+//! may install a process-wide hook that is called at every point (e.g. a deterministic scheduler that
+//! parks the calling thread). With no hook installed a point is a single relaxed load.
+
+use std::sync::atomic::{AtomicUsize, Ordering};
+
+static HOOK: AtomicUsize = AtomicUsize::new(0);
+
+/// Installs (or with `None` removes) the process-wide hook.
+pub fn set_hook(hook: Option<fn(&'static str)>) {
+    HOOK.store(hook.map_or(0, |f| f as usize), Ordering::SeqCst);
+}
+
+/// A yield point. `id` names the operation that follows; ids starting with `spin:` mark the head of a
+/// wait loop (the thread can only make progress after another thread has moved).
+#[inline]
+pub fn point(id: &'static str) {
+    let raw = HOOK.load(Ordering::Relaxed);
+    if raw != 0 {
+        // SAFETY: the only non-zero values ever stored are `fn(&'static str)` pointers.
+        let hook: fn(&'static str) = unsafe { std::mem::transmute(raw) };
+        hook(id);
+    }
+}
+
+/// A fresh, private instance of the cell type that holds the global recorder, so that installation
+/// races can be exercised any number of times in one process.
+#[derive(Debug)]
+pub struct RecorderCell(crate::recorder::VerifRecorderOnceCell);
+
+impl RecorderCell {
+    /// Creates an empty cell.
+    pub const fn new() -> Self {
+        RecorderCell(crate::recorder::VerifRecorderOnceCell::new())
+    }
+
+    /// What `set_global_recorder` does on the global cell.
+    pub fn set<R>(&self, recorder: R) -> Result<(), crate::SetRecorderError<R>>
+    where
+        R: crate::Recorder + 'static,
+    {
+        self.0.set(recorder)
+    }
+
+    /// What `with_recorder` does on the global cell when no local recorder is installed.
+    pub fn try_load(&self) -> Option<&'static dyn crate::Recorder> {
+        self.0.try_load()
+    }
+}
